@@ -5,6 +5,7 @@ import (
 	"reflect"
 	"slices"
 	"sort"
+	"strconv"
 	"strings"
 
 	"github.com/creachadair/mds/mapset"
@@ -268,6 +269,55 @@ func (r *c18) Exec(op []string) string {
 			return r.ctor(c18Reg(op[1]), mapset.Keys[int, int](nil))
 		}
 		return r.ctor(c18Reg(op[1]), mapset.Keys(c18Pairs(op[2:])))
+	case "keyst":
+		// Keys at other VALUE types (the result must not depend on it): `keyst <struct|string|set|bool> d <pairs…|nil>`
+		d, isNil := c18Reg(op[2]), len(op) == 4 && op[3] == "nil"
+		var pairs map[int]int
+		if !isNil {
+			pairs = c18Pairs(op[3:])
+		}
+		r.st.Note("keys-value-type-" + op[1])
+		if isNil {
+			r.st.Note("keys-nil-map")
+		}
+		switch op[1] {
+		case "struct":
+			var m map[int]struct{}
+			if !isNil {
+				m = map[int]struct{}{}
+				for k := range pairs {
+					m[k] = struct{}{}
+				}
+			}
+			return r.ctor(d, mapset.Keys(m))
+		case "set":
+			var m mapset.Set[int]
+			if !isNil {
+				m = mapset.Set[int]{}
+				for k := range pairs {
+					m[k] = struct{}{}
+				}
+			}
+			return r.ctor(d, mapset.Keys(m), c18Ptr(m))
+		case "string":
+			var m map[int]string
+			if !isNil {
+				m = map[int]string{}
+				for k, v := range pairs {
+					m[k] = strconv.Itoa(v)
+				}
+			}
+			return r.ctor(d, mapset.Keys(m))
+		default:
+			var m map[int]bool
+			if !isNil {
+				m = map[int]bool{}
+				for k, v := range pairs {
+					m[k] = v%2 == 0
+				}
+			}
+			return r.ctor(d, mapset.Keys(m))
+		}
 	case "values":
 		if len(op) == 3 && op[2] == "nil" {
 			r.st.Note("values-nil-map")
@@ -680,8 +730,15 @@ func genC18(g *G) {
 				ops = append(ops, s)
 			case k < 64:
 				ops = append(ops, "range "+reg()+vals(5))
-			case k < 66:
+			case k < 65:
 				ops = append(ops, "keys "+reg()+pairs())
+			case k < 66:
+				// the same at other value types (struct{}, string, bool, a Set itself), nil in a third of the cases
+				if g.Chance(1, 3) {
+					ops = append(ops, "keyst "+g.Pick("struct", "string", "set", "bool")+" "+reg()+" nil")
+				} else {
+					ops = append(ops, "keyst "+g.Pick("struct", "string", "set", "bool")+" "+reg()+pairs())
+				}
 			case k < 68:
 				ops = append(ops, "values "+reg()+pairs())
 			case k < 72:
